@@ -223,24 +223,65 @@ def check(ctx):
             continue
         g = fns_[0]
         try:
-            ret, ev, heap = sem.run(P, g, _args(g), heap0={("flt", fo["num_blocks"]): Sym(NB, 64)}, hooks={}, single=True, max_forks=8, budget=50000)
+            outs = sem.run(P, g, _args(g), heap0={("flt", fo["num_blocks"]): Sym(NB, 64)}, hooks={}, single=False, max_forks=16, budget=50000)
         except sem.Inconclusive as ex:
             ctx.inconclusive("R5.spec", key, P.where(g.body), what, str(ex))
             continue
-        if not isinstance(ret, Sym):
-            ctx.inconclusive("R5.spec", key, P.where(g.body), what, "%s returns %s" % (g.name, ret))
-            continue
         n += 1
-        doms = {HASH: terms.SAMPLES64, NB: [1, 2, 3, 7, 8, 31, 1000, 65536, (1 << 32) - 1, (1 << 32) + 5]}
-        ds = [terms.differ(ret.t, s_, doms) for s_ in (SPEC_INDEX, ("*", SPEC_INDEX, 32, 64))]
-        if "same" in ds:
-            ctx.ok("R5.spec", key, P.where(g.body), what, terms.show(terms.norm(ret.t)))
-        elif all(isinstance(d, tuple) for d in ds):
-            d = ds[0]
-            ctx.bad("R5.spec", key, P.where(g.body), what, "%s computes %s; for hash %#x and %d blocks that is %d, the specification gives block %d" % (
-                g.name, terms.show(terms.norm(ret.t)), d[1][HASH], d[1][NB], d[2], d[3]))
+        doms = {HASH: terms.SAMPLES64, NB: [1, 2, 3, 4, 7, 8, 31, 64, 1000, 2048, 65536, (1 << 32) - 1, (1 << 32) + 5]}
+        specs = (SPEC_INDEX, ("*", SPEC_INDEX, 32, 64))
+        verdicts = []
+        for ret, ev, heap in outs:
+            # one formula per path; a path taken only for some (hash, num_blocks) is compared on those
+            conds = [(e[1], bool(e[2])) for e in ev if e[0] == "branch"]
+            if not isinstance(ret, Sym):
+                verdicts.append(("inc", "%s returns %s on one path" % (g.name, ret)))
+                continue
+            if not conds:
+                ds = [terms.differ(ret.t, s_, doms) for s_ in specs]
+                if "same" in ds:
+                    verdicts.append(("ok", terms.show(terms.norm(ret.t))))
+                elif all(isinstance(d, tuple) for d in ds):
+                    d = ds[0]
+                    verdicts.append(("bad", "%s computes %s; for hash %#x and %d blocks that is %d, the specification gives block %d" % (
+                        g.name, terms.show(terms.norm(ret.t)), d[1][HASH], d[1][NB], d[2], d[3])))
+                else:
+                    verdicts.append(("inc", "%s computes %s (no differing input found)" % (g.name, terms.show(terms.norm(ret.t)))))
+                continue
+            if any(terms.norm(ret.t) == terms.norm(s_) for s_ in specs):
+                verdicts.append(("ok", terms.show(terms.norm(ret.t))))
+                continue
+            wit, reached = None, 0
+            for hv in doms[HASH]:
+                for nb in doms[NB]:
+                    env = {HASH: hv, NB: nb}
+                    try:
+                        if any(bool(terms.evaluate(c_, env)) != d_ for c_, d_ in conds):
+                            continue
+                        reached += 1
+                        got = terms.evaluate(ret.t, env)
+                        wants = [terms.evaluate(s_, env) for s_ in specs]
+                    except (KeyError, ZeroDivisionError):
+                        continue
+                    if got not in wants and wit is None:
+                        wit = (hv, nb, got, wants[0])
+            cond_txt = " and ".join("%s%s" % ("" if d_ else "not ", terms.show(terms.norm(c_))) for c_, d_ in conds)
+            if wit is not None:
+                verdicts.append(("bad", "when %s, %s computes %s; for hash %#x and %d blocks that is %d, the specification gives block %d" % (
+                    cond_txt, g.name, terms.show(terms.norm(ret.t)), wit[0], wit[1], wit[2], wit[3])))
+            elif reached:
+                verdicts.append(("inc", "when %s, %s computes %s: equal to the specification on the %d sampled inputs that take this path, "
+                                 "not in its form" % (cond_txt, g.name, terms.show(terms.norm(ret.t)), reached)))
+            else:
+                verdicts.append(("inc", "path under %s not reached by any sampled input" % cond_txt))
+        bads = [v for v in verdicts if v[0] == "bad"]
+        incs = [v for v in verdicts if v[0] == "inc"]
+        if bads:
+            ctx.bad("R5.spec", key, P.where(g.body), what, bads[0][1])
+        elif incs:
+            ctx.inconclusive("R5.spec", key, P.where(g.body), what, incs[0][1])
         else:
-            ctx.inconclusive("R5.spec", key, P.where(g.body), what, "%s computes %s (no differing input found)" % (g.name, terms.show(terms.norm(ret.t))))
+            ctx.ok("R5.spec", key, P.where(g.body), what, "; ".join(v[1] for v in verdicts))
     # ---- the entry points hand the selected block and the hash to the block-level functions
     for role, f, blkfn, idxf in (("insert", ih, ins, idx_i), ("check", ch, chk, idx_c)):
         key = "block-index-used|%s:%s_hash" % (BF, role)
